@@ -6,7 +6,7 @@ import Mathlib.Tactic.LinearCombination
 import Mathlib.Algebra.Order.Field.Basic
 
 def ScalarOps.ofField (α : Type) [Field α] [LinearOrder α] : ScalarOps α :=
-  { add := (· + ·), sub := (· - ·), mul := (· * ·), div := (· / ·), lt := fun a b => decide (a < b),
+  { add := (· + ·), sub := (· - ·), neg := fun a => -a, mul := (· * ·), div := (· / ·), lt := fun a b => decide (a < b),
     ofNat := fun n => (n : α), sqrt := id }
 
 theorem tri_area_partition {α : Type} [Field α] [LinearOrder α] [CharZero α]
